@@ -287,15 +287,20 @@ func (trans *Transport) getConn(ctx context.Context) (conn *conn, err error) {
 		return
 	}
 	trans.lock.RUnlock()
+	// the dial (and OnConnect) runs without the pool lock: while it lasts, the calls of the
+	// connections that exist must not wait for it, least of all beyond their own time-out
+	fresh, err := newConn(ctx, trans.onConnect, trans.onClose)
+	if err != nil {
+		return nil, err
+	}
 	trans.lock.Lock()
 	defer trans.lock.Unlock()
 	if conn = trans.conns[key]; conn != nil {
+		// another call has connected meanwhile: its connection serves, this one is dropped
+		go fresh.Close(core.ErrClosed)
 		return
 	}
-	conn, err = newConn(ctx, trans.onConnect, trans.onClose)
-	if err != nil {
-		return
-	}
+	conn = fresh
 	trans.conns[key] = conn
 	ctx, cancel := context.WithCancel(context.Background())
 	onExit := func() {
